@@ -343,9 +343,41 @@ def check_C14(tier):
          expect_violation=["NothingDropped", "PrintParse"], label="sensitivity: QuoteTailDropped")
     c.replay("seltext", cp, rule="every text '.'+w, |w|<=%d over {. [ ] \" ? : \\ a 0 1 -}; non-trivial = accepted by the model or "
              "by the real parser" % (4 if q else 5))
+    # policy half: the wire form
+    cw = c.case_path("C14w")
+    c.mc("MC_Policy", "MC_C14_pol.cfg", dict(Emit="EmitW"), timeout=900, case_file=cw,
+         label="wire form: whatever FromIPLD accepts is written back unchanged (well-formed and singly mutated nodes)")
+    c.replay("policywire", cw, rule="IPLD nodes offered as policies: wire forms of core/nested statements and every single mutation "
+             "(dropped/added element, non-string or unknown operator, non-string or invalid selector, invalid pattern, non-list); "
+             "also through DAG-JSON text; non-trivial = accepted by the model or by the real reader")
+    ce = c.case_path("C14e")
+    c.mc("MC_Policy", "MC_C11.cfg", dict(Size="quick" if q else "thorough", Deviations="{}", Emit="Emit"), timeout=3000, case_file=ce,
+         label="statement universe for the constructor round trip (RoundTrip invariant)")
+    c.replay("policyctor", ce, rule="every statement of the C11 universe built with the Go constructors, written to IPLD, read back, "
+             "and matched against every datum before and after")
     tr = c.drive("seltext", 4000 if q else 30000)
     c.validate("seltext", "TraceSelector", "TraceSelector.cfg", tr, rule="random selector texts from a richer alphabet; accepted texts "
                "must be spelled completely by their segments (TraceSelector)")
+    return c.finish()
+
+
+def check_C11(tier):
+    c = Ctx("C11", tier)
+    q = tier == "quick"
+    size = "quick" if q else "thorough"
+    cp = c.case_path("C11")
+    c.mc("MC_Policy", "MC_C11.cfg", dict(Size=size, Deviations="{}", Emit="Emit"), timeout=3000, case_file=cp,
+         label="matchStatement-shaped evaluation = order-free four-valued evaluation; laws L1..L6; wire round trip")
+    c.mc("MC_Policy", "MC_C11.cfg", dict(Size="quick", Deviations='{"ShortCircuitOnNoData"}', Emit=""),
+         expect_violation=["ShapeIsEval4", "L2", "L3"], label="sensitivity: ShortCircuitOnNoData")
+    c.replay("policy", cp, rule="every statement of the universe (all comparison/like leaves over 9 selectors x literals, and/or of "
+             "<=%d core operands, all/any over 6 selectors x 5 inner statements, nested) x every datum of the table; evaluated through "
+             "FromIPLD and through the constructors; L2/L3/L4/L5 re-checked on the real results; non-trivial = all selectors resolve "
+             "or data is missing" % (2 if q else 3))
+    for k in range(1 if q else 4):
+        tr = c.drive("policy", 1500 if q else 6000, seed_offset=k)
+        c.validate("policy", "TracePolicy", "TracePolicy.cfg", tr,
+                   rule="random policies of depth <=3 over richer data incl. NaN/Inf, judged by TracePolicy")
     return c.finish()
 
 
@@ -394,7 +426,7 @@ def check_chain(pid):
     return run
 
 
-CHECKS = {"C13": check_C13, "C15": check_C15, "C12": check_C12, "C14": check_C14}
+CHECKS = {"C13": check_C13, "C15": check_C15, "C12": check_C12, "C14": check_C14, "C11": check_C11}
 for _p in CHAIN:
     CHECKS[_p] = check_chain(_p)
 
